@@ -108,7 +108,7 @@ func c08Sorted(p *Prog, r *Report) {
 				sortCalls = append(sortCalls, in)
 			}
 		}
-		if rf.Pkg == "sort" && rf.Name == "Strings" {
+		if (rf.Pkg == "sort" && rf.Name == "Strings") || (rf.Pkg == "slices" && rf.Name == "Sort") {
 			_, f, _, ok := fieldOf(loadAddr(c.Call.Args[0]))
 			if ok && f == "Locations" && inLoop(c.Block()) {
 				got["Locations"] = "sort.Strings"
